@@ -15,13 +15,13 @@ def one_shard(drv, profile, tier, seed, shard, nshards, with_both=False):
     logs = {}
     reports = {}
     for cfg in CFGS:
-        logp = os.path.join(drv.WORK, "c18-%s-%s-%d.log" % (profile, cfg, shard))
+        logp = os.path.join(drv.WORK, "c18-%s-%s-%d-%s.log" % (profile, cfg, shard, drv.RUNID))
         j = drv.run_shard("C18", profile, cfg, tier, seed, shard, nshards, extra_env={"AISMON_LOG": logp})
         logs[cfg] = logp
         reports[cfg] = j
     res = {"shard": shard, "profile": profile, "reports": reports, "diff": None, "dumps": {}, "diff_both": None}
     if with_both:
-        logb = os.path.join(drv.WORK, "c18-%s-both-%d.log" % (profile, shard))
+        logb = os.path.join(drv.WORK, "c18-%s-both-%d-%s.log" % (profile, shard, drv.RUNID))
         jb = drv.run_shard("C18", profile, "both", tier, seed, shard, nshards, extra_env={"AISMON_LOG": logb})
         if jb["rc"] == 0 and reports["std"]["rc"] == 0 and reports["none"]["rc"] == 0:
             # same checker, with the std+alloc build in the place of the alloc build
